@@ -325,13 +325,19 @@ func (r linkDestinationReplacer) scanInlineLinks(line []byte, lineStart int, src
 		}
 		if c == ']' {
 			if len(linkStack) > 0 {
+				open := linkStack[len(linkStack)-1]
 				linkStack = linkStack[:len(linkStack)-1]
 				if i+1 < len(line) && line[i+1] == '(' {
 					start, stop, end, ok := parseInlineDestination(line, i+2)
 					if ok {
 						r.appendReplacement(replacements, src, lineStart+start, lineStart+stop)
 						i = end
-						linkStack = linkStack[:0]
+						// A link cannot contain other links, but it can
+						// contain images: "[![alt](img.png)](page.html)".
+						isImage := open > 0 && line[open-1] == '!' && (open < 2 || line[open-2] != '\\')
+						if !isImage {
+							linkStack = linkStack[:0]
+						}
 						continue
 					}
 				}
